@@ -35,8 +35,9 @@ structure Build where
 deriving Inhabited
 
 def nameId (s : String) : Nat := ((s.drop 1).toString.toNat?).getD 0        -- x12 / f3 -> 12 / 3 (functions offset below)
-def varName (s : String) : Name := nameId s
 def funName (s : String) : Name := 1000 + nameId s
+/-- `x12` is variable 12; `f3` names function 3 (a variable may be given a function's name: shadowing) -/
+def varName (s : String) : Name := if s.startsWith "f" then funName s else nameId s
 
 def binOf? : String → Option BinOp
   | "+" => some .add | "-" => some .sub | "*" => some .mul | "/" => some .div | "%" => some .mod | "<" => some .lt | "<=" => some .le
@@ -129,6 +130,10 @@ partial def buildNode (sx : Sx) (b : Build) : Option (Node × Build) :=
       pure (.tryN bn cs fin, b2)
   | .list (.atom "vec" :: xs) => (many xs b []).map (fun p => (.inlineVec p.1, p.2))
   | .list [.atom "index", a, i] => do let (an, b1) ← buildNode a b; let (inn, b2) ← buildNode i b1; pure (.index an inn, b2)
+  | .list [.atom "evalstr", inner] => do
+      let nid0 := b.nextNid
+      let (n, b1) ← buildNode inner b
+      pure (.evalStr ((List.range (b1.nextNid - nid0)).map (· + nid0)) n, b1)
   | .list [.atom "noop"] => some (.noop, b)
   | _ => none
 
@@ -180,6 +185,7 @@ partial def printSx (sx : Sx) : String :=
         | _ => " ??"))
   | .list (.atom "vec" :: xs) => "[" ++ ", ".intercalate (xs.map ps) ++ "]"
   | .list [.atom "index", a, i] => s!"{ps a}[{ps i}]"
+  | .list [.atom "evalstr", inner] => s!"eval(\"{ps inner}\")"
   | .list [.atom "noop"] => ""
   | _ => "??"
 
@@ -247,6 +253,7 @@ partial def showNode (L : Lits) (ρ : List FunDef) (n : Node) : String :=
       ++ (match fin with | none => "" | some fb => s!" (finally {sn fb})") ++ ")"
   | .inlineVec xs => "(vec" ++ many xs ++ ")"
   | .index a i => s!"(index {sn a} {sn i})"
+  | .evalStr _ _ => "(call (id eval) (str ?))"
   | .noop => "(noop)"
 
 /-! ### running -/
